@@ -32,6 +32,11 @@ is a value (`_Table`) that is indexed or `.get`-ed with the known label of the c
 key leaves the value undecided.  `slice(a, b)` objects are the slices they denote; a slice [lo:hi] of an index range drops lo entries in
 front and -hi at the end (ARANGE(a, b)[lo:hi] == ARANGE(a + lo, b + hi), `_range_slice`).  The boolean-mask update `A[:, mask] -= c` is
 `A -= np.where(mask[None, :], c, 0)` with the mask broadcast along the axis it indexes (`_masked_update`).
+The end-point padding of Grid.getCompactCoordinates is read from the *value* of the getter evaluated with endpoints = True (helpers looked through
+with their parameters bound): every sequence construction -- displays and `+`, starred displays, list() / tuple(), np.concatenate / np.hstack /
+np.append (a bare number is one element), np.insert in front / behind, np.r_, np.pad(.., constant_values=..), list.insert / append / extend /
+`+=` -- evaluates to the python list [numbers.., SPLICE(stored nodes), numbers..] (`_joined`, `_inserted`, `_padded`); an array allocated with
+np.empty / np.zeros and filled by `a[0] = lo; a[1:-1] = nodes; a[-1] = hi` is decoded to the same list when every slot is written (`_filled`).
 """
 from __future__ import annotations
 
@@ -51,8 +56,8 @@ DIRS = ("z", "pz", "pp")
 GRID_ATTR = {"z": "self.chiValues", "pz": "self.rzValues", "pp": "self.rpValues"}
 AXATTR = {"self.direction": "dir", "self.endpoints": "ep", "self.basis": "basis"}
 
-ARANGE, GRIDPTS, SPLICE, SIZE, SETITEM, SUB, GETITEM, SHAPE, TRANSPOSE, BC = (sp.Function(x) for x in (
-    "ARANGE", "GRIDPTS", "SPLICE", "SIZE", "SETITEM", "SUB", "getitem", "SHAPE", "np.transpose", "BC"))
+ARANGE, GRIDPTS, SPLICE, SIZE, SETITEM, SUB, GETITEM, SHAPE, TRANSPOSE, BC, SETSLICE, ALLOC = (sp.Function(x) for x in (
+    "ARANGE", "GRIDPTS", "SPLICE", "SIZE", "SETITEM", "SUB", "getitem", "SHAPE", "np.transpose", "BC", "SETSLICE", "ALLOC"))
 AXIS = sp.Symbol("AXIS__", integer=True, nonnegative=True)
 NP_SIG = {"expand_dims": ["a", "axis"], "sum": ["a", "axis"], "identity": ["n"], "eye": ["N"], "transpose": ["a"]}
 PKG_RECORD = {"chebyshev", "cardinal", "changeBasis", "derivMatrix", "Polynomial"}
@@ -348,6 +353,69 @@ class _PolyEx(Extractor):
             if isinstance(x, sp.Basic):
                 return cur + [SPLICE(x)]
         return None
+
+    # ---- a padded array written as a sequence construction: python list of elements (numbers) and SPLICE(array) entries.
+    # Every spelling of "these values, then that array, then those values" evaluates to the same list, so the rules that read the
+    # padding (which ends, which values) never see whether it was written with displays and `+`, np.concatenate / np.hstack / np.append,
+    # np.insert, np.r_, np.pad or list.insert / list.append, in the getter or in a helper called by it.
+    @staticmethod
+    def _is_scalar(p) -> bool:
+        return isinstance(p, sp.Basic) and not isinstance(p, sp.logic.boolalg.BooleanAtom) and bool(p.is_number)
+
+    def _joined(self, parts):
+        """the 1-d sequence made of the parts one after the other: a python sequence contributes its entries, a number one element (np.append /
+        np.hstack / np.r_ take bare scalars; np.append(a, c) is canonicalised to np.concatenate((a, c))), any other term is an array"""
+        out = []
+        for p in parts:
+            if isinstance(p, (list, tuple)):
+                out.extend(p)
+            elif self._is_scalar(p):
+                out.append(p)
+            elif _named(p, "tuple") and len(p.args) == 1 and not self._is_scalar(p.args[0]):
+                out.append(SPLICE(p.args[0]))      # tuple(array): the entries of the array
+            elif isinstance(p, sp.Basic):
+                out.append(SPLICE(p))
+            else:
+                raise Undecided("concatenation of a non-term")
+        return out
+
+    def _inserted(self, arr, obj, values):
+        """np.insert(arr, obj, values) for a 1-d arr: `values` in front (obj == 0) or behind (obj == len(arr) / arr.size / arr.shape[0]);
+        None for every other position"""
+        obj = self._num(obj) if not isinstance(obj, (list, tuple)) else obj
+        if isinstance(obj, (list, tuple)) and len(obj) == 1:
+            obj = self._num(obj[0])
+        if obj == sp.Integer(0) and isinstance(obj, sp.Integer):
+            return self._joined([values, arr])
+        if isinstance(arr, sp.Basic) and not self._is_scalar(arr) and isinstance(obj, sp.Basic) and \
+                obj in (SIZE(arr), sp.Function("len")(arr), GETITEM(SHAPE(arr), sp.Integer(0))):
+            return self._joined([arr, values])
+        if isinstance(arr, (list, tuple)) and isinstance(obj, sp.Integer) and 0 <= int(obj) <= len(arr) and not any(_fn(x, SPLICE) for x in arr[:int(obj)]):
+            return self._joined([list(arr[:int(obj)]), values, list(arr[int(obj):])])
+        return None
+
+    def _padded(self, n, env, depth):
+        """np.pad(array, (before, after), constant_values=c | (c0, c1)) with the default mode "constant" on a 1-d array; None otherwise"""
+        a, w = kwarg(n, "array", 0), kwarg(n, "pad_width", 1)
+        mode = kwarg(n, "mode", 2)
+        if a is None or w is None or (mode is not None and not (isinstance(mode, ast.Constant) and mode.value == "constant")):
+            return None
+        if any(k.arg not in ("array", "pad_width", "mode", "constant_values") for k in n.keywords) or len(n.args) > 3:
+            return None
+        arr, width = self.expr(a, env, depth), self.expr(w, env, depth)
+        cv = kwarg(n, "constant_values")      # keyword only (np.pad(array, pad_width, mode, **kwargs))
+        val = self.expr(cv, env, depth) if cv is not None else sp.Integer(0)
+
+        def pair(x):
+            if isinstance(x, (list, tuple)) and len(x) == 1:
+                x = x[0]                        # ((before, after),)
+            if isinstance(x, (list, tuple)):
+                return tuple(self._num(y) for y in x) if len(x) == 2 else None
+            return (self._num(x), self._num(x))
+        width, val = pair(width), pair(val)
+        if width is None or val is None or not all(isinstance(k, sp.Integer) and 0 <= int(k) <= 8 for k in width) or not all(self._is_scalar(c) for c in val):
+            return None
+        return self._joined([[val[0]] * int(width[0]), arr, [val[1]] * int(width[1])])
 
     def _stmt(self, st, env, guards, depth):
         if isinstance(st, ast.If):
@@ -658,12 +726,25 @@ class _PolyEx(Extractor):
                 idx = self._const_index(target.slice, env)
                 if isinstance(env.get(d), sp.Basic) and isinstance(v, sp.Basic) and idx is not None:
                     env[d] = SETITEM(env[d], sp.Integer(idx), v)
+                elif isinstance(env.get(d), sp.Basic) and isinstance(v, sp.Basic) and self._store_bounds(target.slice, env) is not None:
+                    lo, hi = self._store_bounds(target.slice, env)      # a[lo:hi] = v: part of an array that is filled slot by slot
+                    env[d] = SETSLICE(env[d], sp.Integer(lo), sp.Integer(hi), v)
                 elif not (isinstance(env.get(d), list) and idx is not None):
                     env[d] = self.fresh()
                 else:
                     super().assign(target, v, env)
                 return
         super().assign(target, v, env)
+
+    def _store_bounds(self, sl, env):
+        """(lo, hi) of the target slice of a store `a[lo:hi] = v` with integer bounds: lo >= 0 entries skipped in front, -hi >= 0 entries left at the
+        end (a missing bound is 0); None for every other subscript"""
+        if not isinstance(sl, ast.Slice) or (sl.step is not None and not (isinstance(sl.step, ast.Constant) and sl.step.value == 1)):
+            return None
+        lo, hi = [sp.Integer(0) if b is None else self._num(self._bound(b, env, 0)) for b in (sl.lower, sl.upper)]
+        if not (isinstance(lo, sp.Integer) and isinstance(hi, sp.Integer) and lo >= 0 and (hi < 0 or sl.upper is None)):
+            return None
+        return int(lo), int(hi)
 
     # ---- expressions
     def expr(self, n, env, depth=0):
@@ -749,6 +830,12 @@ class _PolyEx(Extractor):
 
     def binop(self, op, a, b):
         a, b = self._num(a), self._num(b)
+        if isinstance(op, ast.Add):
+            # (lo,) + tuple(xs) + (hi,): tuple(array) is the tuple of the array's entries
+            if isinstance(a, tuple) and _named(b, "tuple") and len(b.args) == 1 and not self._is_scalar(b.args[0]):
+                b = (SPLICE(b.args[0]),)
+            elif isinstance(b, tuple) and _named(a, "tuple") and len(a.args) == 1 and not self._is_scalar(a.args[0]):
+                a = (SPLICE(a.args[0]),)
         try:
             return super().binop(op, a, b)
         except (TypeError, ValueError, AttributeError) as e:
@@ -773,6 +860,11 @@ class _PolyEx(Extractor):
         if d in AXATTR and d not in env and self._combo(AXATTR[d]) is not None:
             self.idx.add(" ".join(ast.unparse(n.slice).split()))
             return self._combo(AXATTR[d])
+        if d in ("np.r_", "numpy.r_") and d not in env:
+            # np.r_[a, xs, b]: the entries one after the other (no slice / string directives)
+            parts = list(n.slice.elts) if isinstance(n.slice, ast.Tuple) else [n.slice]
+            if not any(isinstance(e, (ast.Slice, ast.Starred)) or (isinstance(e, ast.Constant) and not isinstance(e.value, (int, float))) for e in parts):
+                return self._joined([self.expr(e, env, depth) for e in parts])
         tbl = self._table_of(n.value, env, depth)
         if tbl is not None:
             return self._lookup(tbl, self.expr(n.slice, env, depth), strict=True)
@@ -918,15 +1010,30 @@ class _PolyEx(Extractor):
                 if ax is None or (isinstance(ax, ast.Constant) and ax.value == 0):
                     seq = self.expr(n.args[0], env, depth)
                     if isinstance(seq, (list, tuple)):
-                        out = []
-                        for p in seq:
-                            if isinstance(p, (list, tuple)):
-                                out.extend(p)
-                            elif isinstance(p, sp.Basic):
-                                out.append(SPLICE(p))
-                            else:
-                                raise Undecided("concatenate of a non-term")
-                        return out
+                        return self._joined(seq)
+            if isnp and short == "append" and kwarg(n, "arr", 0) is not None and kwarg(n, "values", 1) is not None:
+                # np.append(arr=a, values=b) (the positional spelling is canonicalised to np.concatenate((a, b)))
+                ax = kwarg(n, "axis", 2)
+                if ax is None or (isinstance(ax, ast.Constant) and ax.value in (None, 0)):
+                    return self._joined([self.expr(kwarg(n, "arr", 0), env, depth), self.expr(kwarg(n, "values", 1), env, depth)])
+            if isnp and short == "insert" and kwarg(n, "arr", 0) is not None and kwarg(n, "obj", 1) is not None and kwarg(n, "values", 2) is not None:
+                ax = kwarg(n, "axis", 3)
+                if ax is None or (isinstance(ax, ast.Constant) and ax.value in (None, 0)):
+                    r = self._inserted(*[self.expr(kwarg(n, p, i), env, depth) for i, p in enumerate(("arr", "obj", "values"))])
+                    if r is not None:
+                        return r
+            if isnp and short == "pad":
+                r = self._padded(n, env, depth)
+                if r is not None:
+                    return r
+            if isnp and short in ("empty", "zeros") and kwarg(n, "shape", 0) is not None and all(k.arg in ("shape", "dtype") for k in n.keywords) and len(n.args) <= 2:
+                # a 1-d array that is allocated first and filled slot by slot afterwards (its element type is not looked at)
+                shape = self.expr(kwarg(n, "shape", 0), env, depth)
+                if isinstance(shape, (tuple, list)) and len(shape) == 1:
+                    shape = shape[0]
+                shape = self._num(shape)
+                if isinstance(shape, sp.Basic) and not isinstance(shape, sp.logic.boolalg.BooleanAtom):
+                    return ALLOC(shape)
             if isnp and short == "full" and kwarg(n, "shape", 0) is not None and kwarg(n, "fill_value", 1) is not None:
                 shape, val = self.expr(kwarg(n, "shape", 0), env, depth), self.expr(kwarg(n, "fill_value", 1), env, depth)
                 if isinstance(shape, sp.Basic) and isinstance(val, sp.Basic):
@@ -1129,11 +1236,52 @@ def _deriv_decode(v, d, full):
     return out
 
 
+def _filled(t):
+    """the sequence [c1, .., SPLICE(x), .., ck] that an array allocated with n slots holds after the stores a[0] = c1, .., a[lo:hi] = x, .., a[-1] = ck:
+    exactly one slice store of an array x, n == len(x) + lo - hi, and every slot outside the slice written with a number (the last store of a
+    slot wins; the stores do not overlap, so their order is irrelevant).  None when a slot is left unwritten or anything else is stored"""
+    writes = []
+    while _fn(t, SETITEM) or _fn(t, SETSLICE):
+        writes.append(t)
+        t = t.args[0]
+    if not _fn(t, ALLOC) or len(t.args) != 1:
+        return None
+    size = t.args[0]
+    writes.reverse()
+    slices = [w for w in writes if _fn(w, SETSLICE)]
+    if len(slices) != 1:
+        return None
+    _, lo, hi, x = slices[0].args
+    if _PolyEx._is_scalar(x) or not isinstance(x, sp.Symbol):
+        return None
+    lo, hi = int(lo), int(hi)
+    length = sp.Dummy("length")
+    # len(x) == x.size == x.shape[0] for the 1-d array x (an attribute of self is a symbol named after its dotted path)
+    n = size.xreplace({SIZE(x): length, sp.Function("len")(x): length, GETITEM(SHAPE(x), sp.Integer(0)): length})
+    n = n.xreplace({s_: length for s_ in n.free_symbols if s_.name in (f"{x.name}.size", f"{x.name}.shape[0]")})
+    if sp.expand(n - (length + lo - hi)) != 0:
+        return None
+    items = {}
+    for w in writes:
+        if _fn(w, SETITEM):
+            k, val = w.args[1], w.args[2]
+            if not (isinstance(k, sp.Integer) and _PolyEx._is_scalar(val)):
+                return None
+            items[int(k)] = val
+    if set(items) != set(range(lo)) | set(range(hi, 0)):
+        return None
+    return [items[k] for k in range(lo)] + [SPLICE(x)] + [items[k] for k in range(hi, 0)]
+
+
 def _array(v):
     """(origin direction, entries before, entries after) of a padded copy of one of the grid's compact coordinate arrays"""
     inv = {a: d for d, a in GRID_ATTR.items()}
+    if _fn(v, SETITEM) or _fn(v, SETSLICE):
+        v = _filled(v)          # allocated, then filled slot by slot
     if isinstance(v, sp.Symbol):
         v = [SPLICE(v)]
+    if isinstance(v, tuple):
+        v = list(v)              # np.array((lo, *xs, hi)): a tuple display pads like a list display
     if not isinstance(v, list):
         return None
     sp_ = [i for i, x in enumerate(v) if _fn(x, SPLICE)]
@@ -1611,6 +1759,9 @@ def r16_4(chk: Check):
 def rules(chk: Check) -> None:
     # R16.5: exactness "for every call history": the read-only methods leave the stored coefficients untouched
     chk.stage(coefficients_not_modified, chk, "R16.5")
+    # R16.6: the basis label says in which representation the coefficients are held: only a method that transforms the coefficients re-assigns it
+    from .shared import label_stored_with_data
+    chk.stage(label_stored_with_data, chk, "R16.6", "polynomial:Polynomial", "basis", ("coefficients",))
     G = chk.stage(_grid, chk)
     if G is None:
         return
